@@ -20,6 +20,7 @@ int  sched_nthreads(void);
 int  sched_thread_finished(int slot);
 int  sched_join_count(int slot);             /* how many times pthread_join was called on that thread */
 int  sched_slot_of(pthread_t t);
+int  sched_other_runnable(void);     /* some other thread could take the baton right now */
 int  sched_all_others_parked(void);  /* no other thread can be inside a library call right now */
 extern unsigned long sched_step;             /* global logical clock: incremented at every yield point */
 extern unsigned long sched_switches;
